@@ -26,9 +26,9 @@ fn gen_case(c: &mut Choices) -> Case {
         error_rate: 3,
         max_sources: 3,
         max_items: 6,
-        // an include of another source's output legitimately differs in the middle (the
-        // included file itself loses its final line ending), so sources are kept independent
-        allow_deps: false,
+        // dependencies are generated, but only sources WITHOUT dependency directives are
+        // compared (see below): an includer legitimately differs in the middle, because the
+        // included output itself loses its final line ending
         ..GenParams::default()
     };
     let project = gen_project(c, &p);
